@@ -22,7 +22,7 @@ package xsub
 //@   ensures name == protocol.OptionReadQLen ==> (isnil(result) <==> is_int(value) && 0 <= int_of(value))
 //@   ensures name == protocol.OptionReadQLen && !isnil(result) ==> result == protocol.ErrBadValue
 //@   ensures name == protocol.OptionReadQLen && isnil(result) ==> s.recvQLen == int_of(value)
-//@   ensures !isnil(result) ==> unchanged(s.recvExpire, s.recvQLen)
+//@   ensures !isnil(result) && (name == protocol.OptionRecvDeadline || name == protocol.OptionReadQLen) ==> unchanged(s.recvExpire, s.recvQLen)
 //@
 //@ func (*socket).GetOption
 //@   ensures option != protocol.OptionRecvDeadline && option != protocol.OptionReadQLen && option != protocol.OptionRaw ==> result1 == protocol.ErrBadOption && isnil(result0)
